@@ -15,12 +15,15 @@ from kojen import LanguageCPP, LanguageCsharp  # noqa: E402
 LEVEL = "proof"
 
 MANIFEST = {
-    "technique": "Coq proofs over an executable model of umlgen/LanguageCPP on an abstract class diagram + differential correspondence "
-                 "(model vs real GetOperationPerVisibility / generated file set) + direct observation of the generated C++ (tokenizer, g++ -fsyntax-only)",
+    "technique": "Coq proofs over an executable model of umlgen with LanguageCPP and with LanguageCsharp on an abstract class diagram + differential "
+                 "correspondence (model vs real GetOperationPerVisibility of both back ends / generated file sets) + direct observation of the generated "
+                 "C++ (tokenizer, g++ -fsyntax-only) and C# (tokenizer; there is no C# compiler)",
     "text": "Theorems (Props/C19.v) over ALL abstract class diagrams: C19_decl_def (for every class and every fuel that does not run out: the "
             "operations emitted for the header's three visibility sections are a permutation of those emitted for the source file, stated as "
             "equal counts for every predicate) and C19_decl_def_acyclic (for acyclic, closed diagrams fuel = number of classes never runs out, so "
-            "both sides return and agree; C19_acyclic_excludes_cycles: the boolean acyclic excludes every cycle), C19_realised (every operation "
+            "both sides return and agree; C19_acyclic_excludes_cycles: the boolean acyclic excludes every cycle), C19_decl_def_unique (under once_hyp = 'no operation is reached through two "
+            "paths', a boolean on the diagram evaluated per class: every emitted operation is declared once and defined once; C19_ops_unique per "
+            "section; C19_twice_refuted: the known exception K-C19-1b is exactly the failure of the hypothesis), C19_realised (every operation "
             "of a realised pure virtual interface is emitted for the realising class, defined under its name, declared 'override', unless the "
             "class declares that signature itself), C19_files (under files_hyp = well-formed names and distinct paths, both evaluated on every "
             "generated input, the code model has exactly one header per generated element and one source per concrete class, in the folder chain "
@@ -28,7 +31,24 @@ MANIFEST = {
             "the properly nested namespace chain and names it), C19_cycle_refuted (a cyclic realisation exhausts every fuel: Python "
             "RecursionError). The model is tied to the code by translator/uml.py (branch conditions, template filters, file-name dictionaries, "
             "template directory listing regenerated from umlgen.py) and by differential runs on the shipped diagrams and mutants of them "
-            "(GetOperationPerVisibility vs ops_of with the theorem's fuel, generated file set vs files_of and vs Spec.expected_files).",
+            "(GetOperationPerVisibility vs ops_of with the theorem's fuel, generated file set vs files_of and vs Spec.expected_files). "
+            "C# BACK END (Model/UmlCs.v: the shared generator class over the C# template directory, the project files, LanguageCsharp."
+            "GetOperationPerVisibility = the same recursion on the C# view of the diagram -- no constness, ref / out parameter types -- and the text of "
+            "an emitted method): C19_files_cs (under files_hyp_cs exactly one .cs per generated element -- class, interface, enumeration, struct -- in "
+            "its namespace folder when requested, plus the project files: one per namespace named after the fully qualified namespace, or one named "
+            "after the diagram), C19_realised_cs + C19_realised_rendering_cs (every operation of a realised interface is a method of the realising "
+            "class, with a body, 'visibility override ...' when drawn abstract and not static; C19_own_rendering_cs for own operations: interfaces "
+            "end them with ';'), C19_once_cs (the C# reading of declared-iff-defined: the three visibility sections of the type together hold exactly "
+            "what one call with visibility 'all' emits, each as often; acyclic closed diagrams) and C19_unique_cs (each exactly once under once_hyp on "
+            "the C# view), C19_namespace_balanced_cs (the C# namespace functions are statement for statement the C++ ones; every C# template wraps its "
+            "type between the two tags), C19_languages_source_shape (branch conditions, calls, signature, DeclareFunction / ParameterString, template "
+            "layouts, project-file block of both back ends pinned). From the project file: C19_adaptor_cs_roundtrip / C19_files_cs_from_diagram / "
+            "C19_once_cs_from_diagram / C19_realised_cs_from_diagram (cdiagram_cs_of D = the objects read, rendered by the model of LanguageCsharp's type / name "
+            "helpers, tied to the real ones). Ties: real LanguageCsharp.GetOperationPerVisibility vs ops_of_cs / cs_line line by "
+            "line on every class and visibility, generated C# file set vs files_all and vs expected_files_cs. Independent oracle for C#: a tokenizer "
+            "over the generated .cs files (braces balanced, namespace chain opened / closed and named, 'public class|interface|enum|struct Name', every "
+            "drawn operation and every operation of a realised interface present under its name as often as the drawn diagram says, bodies for class "
+            "methods and realised methods, ';' for an interface's own, no method written twice unless once_hyp fails).",
     "adaptor": "INPUT ADAPTOR (project file -> class diagram objects), modelled in Model/UmlBlob.v (vppfs.ParseBLOB_Recursive / Get_ValuesFromOutside, "
                "vppclassdiagram's Class / ClassOperation / ClassAttribute / Package / Inheritance / Association parsing, namespaces from the package "
                "chain, ExtractClassDiagram, LanguageCPP's type / name / default rendering helpers). THEOREMS: C19_adaptor_roundtrip -- for EVERY semantic "
@@ -58,9 +78,10 @@ MANIFEST = {
                "C19_adaptor_semantic_calibration (THE two shipped class diagrams as semantic diagrams, Gen/UmlSemShipped.v regenerated from blob.xml: "
                "157 / 357 meaningful and 461 / 999 inert properties; encode_project reproduces the shipped rows BYTE FOR BYTE and BOTH lie in "
                "sdiagram_ok: the read-back theorem speaks about the shipped project itself), C19_adaptor_source_shape (literal pins, SplitOutsideQuotes "
-               "included), C19_adaptor_name_refuted (operator< is read as operator: K-C19-7). WRITER ASSUMPTION: Model/UmlWriter.v + Model/UmlSem.v tree_of (how Visual "
-               "Paradigm lays a class diagram out), calibrated on the one shipped project at the structured-blob level. OUTSIDE THE SEMANTIC DOMAIN: names of classes / packages / members with ':' (association names may hold colons) or with the "
-               "characters mass_replace deletes (K-C19-7); inert properties whose keys collide with a key the reader looks up in that kind of "
+               "included), C19_adaptor_operator_names (operator<, operator(), operator==, a:b are read back under their names: K-C19-7 repaired; element NAMES are any printable text without double quote, backslash, apostrophe and ';'). WRITER ASSUMPTION: Model/UmlWriter.v + Model/UmlSem.v tree_of (how Visual "
+               "Paradigm lays a class diagram out), calibrated on the one shipped project at the structured-blob level. OUTSIDE THE SEMANTIC DOMAIN: names of classes / packages / referenced elements with ':' or ',' (they are joined into qualified type "
+               "names; member and association names may hold = < > ( ) , : since the repair of K-C19-7); values with the characters mass_replace still "
+               "deletes (K-C19-10); inert properties whose keys collide with a key the reader looks up in that kind of "
                "element (they would not be inert); rows whose bytes hold an apostrophe but no double quote. TIES: the semantic diagram built from an object graph means that object graph (harness twin vs "
                "rdiagram_of); the REAL adaptor on the SHIPPED file = the extracted rdiagram_of of the shipped semantic diagrams, and the extracted "
                "encode_project of them = the shipped rows; the extracted "
@@ -71,7 +92,10 @@ MANIFEST = {
             "execution). The Visual Paradigm writer for class diagrams is an ASSUMPTION calibrated on the one shipped project. Associations, "
             "like everything else of a class diagram, are read back by C19_adaptor_roundtrip. K-C19-6 (free text in quoted values was structure) is "
             "repaired (d35a215; corpus/C19/free_text_injection.json reproduced it and passes now). 'Accepted by a C++ compiler' is an observation (g++ 14 -fsyntax-only), not a theorem. "
-            "C#: file set and crash observation only (no C# compiler). Known findings K-C19-*.",
+            "C#: modelled and proved like C++ (file set, realised operations, every operation once, namespace wrap), observed with a tokenizer; "
+            "NOT checked: that a C# compiler accepts the output (none available) -- e.g. whether 'override' on a method implementing an INTERFACE "
+            "member is accepted is outside what is proved or observed. K-C19-8 (every 'virtual' in a realised C# method became 'override', also "
+            "inside names) is repaired (1e812e6; corpus/C19/cs_virtual_word.json); K-C19-9 (A::B.csproj) is known. K-C19-7 (names lost = < > ; ( ) and were cut at colons) is repaired (fb98a7e; corpus/C19/operator_names.json); what remains of mass_replace concerns values: K-C19-10. Known findings K-C19-*.",
 }
 MANIFEST["text"] += " " + MANIFEST.pop("adaptor")
 RULE = ("the two shipped class diagrams and mutants of them (1-4 random edits of the parsed object graph: rename/remove/retype classes, "
@@ -80,11 +104,12 @@ RULE = ("the two shipped class diagrams and mutants of them (1-4 random edits of
         "generator produced at least one class with operations; distinct = distinct (diagram, edits, options)")
 ASSUMPTIONS = [
     "operation visibilities are public/protected/private: a theorem for every diagram read from a project file (C19_adaptor_visibilities); a 'package' operation exists only in in-memory mutants (K-C19-4)",
-    "adaptor (sdiagram_ok): names and ids are plain text (printable ASCII without = < > ; \\ \" ' ( ) , { } and without leading/trailing blanks), values likewise but ',' allowed unless nothing else is left (documentation: any quoted text without '=' and '<'), no ':' in ids and element names (association names may hold them), inert properties (any scalar / reference list / owned elements / free text in the text domain) whose keys are none of the keys the reader looks up in that kind of element and whose owned elements are not of a member type, line breaks CR LF or LF per element, no property key written twice, type names unchanged by CleanModifiersFromType, referenced ids known, every element drawn once, a class on at most one package path; association ends attached to known paths, ids / names of associations and ends not containing the reader's probe words (documentation_plain / readOnly)",
-    "adaptor (text domain wf_node / nbq_node / quote_ok): free text only inside closed double-quoted values; no brace in ids, names, types, keys, reference ids and unquoted values; no ':' in ids and names (K-C19-7)",
+    "adaptor (sdiagram_ok): ids and the names of classes / packages / referenced elements are plain text (printable ASCII without = < > ; \\ \" ' ( ) , { } and without leading/trailing blanks), names of operations / attributes / parameters / literals / associations any printable text without \" \\ ' ; { }, values likewise but ',' allowed unless nothing else is left (documentation: any quoted text without '=' and '<'), no ':' in ids and element names (association names may hold them), inert properties (any scalar / reference list / owned elements / free text in the text domain) whose keys are none of the keys the reader looks up in that kind of element and whose owned elements are not of a member type, line breaks CR LF or LF per element, no property key written twice, type names unchanged by CleanModifiersFromType, referenced ids known, every element drawn once, a class on at most one package path; association ends attached to known paths, ids / names of associations and ends not containing the reader's probe words (documentation_plain / readOnly)",
+    "adaptor (text domain wf_node / nbq_node / quote_ok): free text only inside closed double-quoted values; no brace in ids, names, types, keys, reference ids and unquoted values; no ':' in ids; names: any printable text without \" \\ ' ;",
     "no realisation cycle among pure virtual interfaces (C19_cycle_refuted: RecursionError otherwise)",
     "files_hyp: class names non-empty without '.' and '/', namespace not ending in a separator, distinct output paths (two classes of one name in different packages collide when namespace folders are off: K-C19-5 is exactly distinct_paths = false)",
-    "multiplicity 1 of a definition needs distinct signatures per class: an operation reached through two realisation paths is emitted twice (K-C19-1b); an operation both declared in the class and realised is emitted once since the fix (K-C19-1)",
+    "multiplicity 1 of a definition: once_hyp (no signature twice in the class, none twice among the operations of the interfaces reached, every path counted) -- evaluated per class on every input; where it fails an operation reached through two realisation paths is emitted twice (K-C19-1b); an operation both declared in the class and realised is emitted once since the fix (K-C19-1)",
+    "C# file set (files_hyp_cs): as files_hyp, no namespace starting with '/', project file paths distinct from the .cs paths",
     "no inheritance entry points to a class outside the diagram (closed; KeyError otherwise)",
 ]
 TRUSTED = ["Coq 8.16.1 kernel (coqc; coqchk in the thorough tier)", "axioms: none", "translator/uml.py, translator/umlblob.py", "extraction: ExtrOcamlBasic + ExtrOcamlNativeString",
@@ -227,7 +252,14 @@ def observe(ctx, cd, label, nsf, dclspc, edits, compile_all, touch=(), project=N
                 nontrivial = nontrivial or len(decls) > 1
                 dcount = collections.Counter((d["name"], d["params"], d["const"]) for d in decls if not d["pure"])
                 fcount = collections.Counter((d["name"], d["params"], d["const"]) for d in defs)
+                once = (ctx.km is not None and D is not None and ctx.km.call("uml_once_hyp", "cpp", D, c.ID) == b"1")
+                ctx.count("once_hyp=%s" % once)
                 for k, n in dcount.items():
+                    if once and n > 1 and fcount.get(k, 0) == n:
+                        # C19_decl_def_unique: under once_hyp every operation is declared and defined exactly once
+                        fail("%s: once_hyp holds but operation %s%r is declared and defined %d times" % (c.NAME, k[0], k[1], n),
+                             "uml:%s:%s:%s:once" % (label, c.NAME, k[0]), file=path, finding_class="uml:twice-under-once-hyp")
+                        continue
                     if fcount.get(k, 0) != n or n != 1:
                         fail("%s: operation %s%r declared %d time(s), defined %d time(s)" % (c.NAME, k[0], k[1], n, fcount.get(k, 0)),
                              "uml:%s:%s:%s" % (label, c.NAME, k[0]), file=path,
@@ -295,22 +327,161 @@ def observe(ctx, cd, label, nsf, dclspc, edits, compile_all, touch=(), project=N
     return fails, nontrivial
 
 
+def function_level_cs(ctx, cd, label):
+    """real LanguageCsharp.GetOperationPerVisibility vs UmlCs.ops_of_cs on every class, every visibility (the is_impl argument is ignored
+    by the C# back end); returns the abstract diagram as LanguageCsharp renders it"""
+    lang = LanguageCsharp.LanguageCsharp()
+    try:
+        D = us.abstract_cs(cd, lang)
+    except Exception as e:  # noqa
+        ctx.count("adaptor_rejected_cs:%s" % type(e).__name__)
+        return None
+    for cid, c in cd.classes.items():
+        for vis in ("public", "protected", "private", "all"):
+            try:
+                real = code_lines(lang.GetOperationPerVisibility(c, vis == "all", vis))
+            except (RecursionError, KeyError):
+                real = None
+            m = ctx.km.call("uml_ops_cs", str(len(cd.classes)), D, vis, cid)
+            model = [e[0].decode("utf-8") for e in m[0]] if m else None
+            if real != model:
+                ctx.tie_broken("correspondence LanguageCsharp.GetOperationPerVisibility vs UmlCs.ops_of_cs / cs_line (%s, %s)" % (c.NAME, vis),
+                               {"diagram": label, "class": c.NAME, "real": real, "model": model})
+            ctx.count("function_level_calls_cs")
+    return D
+
+
+def cs_expected_members(cd, c):
+    """independent reading: (name, number of parameters) -> how often the generated type must hold it: the operations drawn in the class,
+    and those of every pure virtual interface it realises (directly, or handed down through other interfaces) that the class does not
+    declare itself with the same name, parameter directions and types (read off the drawn properties, not the rendered text); an interface
+    reached through two paths is counted once per path (K-C19-1b)"""
+    def sig(o):
+        def d(p):
+            x = p["direction"].strip() if "direction" in p else ""
+            return "ref" if x.find("inout") > -1 else ("out" if x.find("out") > -1 else "")
+        return (o.NAME.strip(), tuple((d(p), p["type"].strip(), p["modifier"].strip(), p["multiplicity"].strip()) for p in o.PARAMETERS))
+    own = collections.Counter((o.NAME.strip(), len(o.PARAMETERS)) for o in c.OPERATIONS if o.VISIBILITY.lower().strip() in ("public", "protected", "private"))
+    own_sigs = {sig(o) for o in c.OPERATIONS}
+    realised = collections.Counter()
+
+    def walk(x, realising, seen):
+        for inh in cd.inheritence.values():
+            if inh.CLASS_TO_ID.find(x.ID) > -1 and (inh.IS_REALIZATION or realising) and inh.CLASS_FROM_ID in cd.classes:
+                p = cd.classes[inh.CLASS_FROM_ID]
+                if p.PURE_VIRTUAL_INTERFACE and p.ID not in seen:
+                    walk(p, True, seen | {p.ID})
+                    for o in p.OPERATIONS:
+                        if o.VISIBILITY.lower().strip() in ("public", "protected", "private") and sig(o) not in own_sigs:
+                            realised[(o.NAME.strip(), len(o.PARAMETERS), p.NAME)] += 1
+    walk(c, False, {c.ID})
+    return own, realised
+
+
 def csharp(ctx, cd, label, nsf, edits):
+    """the C# back end: function level tie, file set (model, specification, independent reading) and a tokenizer oracle over the
+    generated .cs files (there is no C# compiler here): braces balanced, the namespace chain opened and closed, the element's keyword
+    and name, every drawn operation emitted once, every operation of a realised interface emitted under its name with a body"""
     fails = []
+
+    def fail(what, key, **kw):
+        d = {"diagram": label, "edits": edits, "nsf": nsf, "lang": "cs", "detail": what, "finding_key": key, "finding_class": "uml_cs:other"}
+        d.update(kw)
+        fails.append(d)
+    D = function_level_cs(ctx, cd, label) if ctx.km is not None else None
     with kj.scratch("kjv-umlcs-") as out:
         try:
             us.generate(cd, out, "cs", nsf, "")
         except Exception as e:  # noqa
-            fails.append({"diagram": label, "edits": edits, "nsf": nsf, "lang": "cs", "detail": "C# generator crashed: %s: %s" % (type(e).__name__, e),
-                          "finding_key": "uml_cs:%s:crash:%s" % (label, type(e).__name__),
-                          "finding_class": "uml:realisation-cycle" if isinstance(e, RecursionError) else "uml_cs:crash"})
+            fail("C# generator crashed: %s: %s" % (type(e).__name__, e), "uml_cs:%s:crash:%s" % (label, type(e).__name__),
+                 finding_class="uml:realisation-cycle" if isinstance(e, RecursionError) else "uml_cs:crash")
             return fails
-        tree = kj.read_tree(out)
+        tree = {k: v.decode("utf-8", "replace") for k, v in kj.read_tree(out).items()}
         exp, clash = expected_paths(cd, nsf, "cs")
-        have = {p for p in tree if not p.endswith(".csproj")}
-        if have != set(exp) and not clash:
-            fails.append({"diagram": label, "edits": edits, "nsf": nsf, "lang": "cs", "detail": "C# file set differs: missing %s unexpected %s" % (
-                sorted(set(exp) - have), sorted(have - set(exp))), "finding_key": "uml_cs:%s:file-set" % label})
+        if any(same for _p, same in clash):
+            ctx.count("outside_domain:two-elements-of-one-name-in-one-namespace")
+            return []
+        # the project files: one per namespace in its folder when namespace folders are on, else one named after the diagram
+        if nsf:
+            nss = []
+            for c in cd.classes.values():
+                if c.NAMESPACE not in nss:
+                    nss.append(c.NAMESPACE)
+            projects = [("/".join(ns.split("::")) + "/" if ns else "") + ns + ".csproj" for ns in nss]
+        else:
+            projects = [(cd.name or "Project") + ".csproj"]
+        have = set(tree)
+        if have != set(exp) | set(projects) and not clash:
+            fail("C# file set differs: missing %s unexpected %s" % (sorted((set(exp) | set(projects)) - have), sorted(have - set(exp) - set(projects))),
+                 "uml_cs:%s:file-set" % label, finding_class="uml_cs:file-set")
+        if D is not None:
+            mf = sorted(f[0].decode("utf-8") for f in ctx.km.call("uml_files_all", "cs", nsf, cd.name, D))
+            if mf != sorted(tree):
+                ctx.tie_broken("correspondence generated C# file set vs UmlCs.files_all", {"diagram": label, "edits": edits, "real": sorted(tree), "model": mf})
+            if ctx.km.call("uml_files_hyp_cs", nsf, cd.name, D) == b"1":
+                want = sorted(f[0].decode("utf-8") for f in ctx.km.call("uml_expected_files_cs", nsf, cd.name, D))
+                ctx.count("files_hyp_cs")
+                if want != sorted(tree):
+                    fail("files_hyp_cs holds but the generated C# files differ from Spec.expected_files_cs: %s vs %s" % (sorted(tree), want),
+                         "uml_cs:%s:file-set" % label, finding_class="uml_cs:file-set")
+        for path in sorted(tree):
+            if ":" in path:
+                fail("the generated file %s has a colon in its name (no file name on Windows)" % path, "uml_cs:%s:colon-in-file-name" % label,
+                     finding_class="uml_cs:colon-in-file-name", file=path)
+                break
+        for path, c in exp.items():
+            if path not in tree or path in [p for p, _s in clash]:
+                continue
+            base = os.path.basename(path)
+            r = us.cs_scan(tree[path])
+            ctx.count("cs_files_scanned")
+            if not r["balanced"]:
+                fail("%s: braces are not balanced" % path, "uml_cs:%s:%s:braces" % (label, base), finding_class="uml_cs:braces", file=path)
+            parts = c.NAMESPACE.split("::")
+            if r["namespaces"][-len(parts):] != parts or len(r["closers"]) != 1 or r["closers"][0] != (len(parts), c.NAMESPACE):
+                fail("%s is not wrapped in namespace %s" % (path, c.NAMESPACE), "uml_cs:%s:%s:namespace" % (label, base), finding_class="uml:namespace", file=path)
+            kw = "enum" if c.IS_ENUM else "struct" if c.IS_STRUCT else "interface" if c.PURE_VIRTUAL_INTERFACE else "class"
+            if r["types"][:1] != [(kw, c.NAME)]:
+                fail("%s does not declare 'public %s %s' (found %s)" % (path, kw, c.NAME, r["types"][:1]), "uml_cs:%s:%s:type" % (label, base),
+                     finding_class="uml_cs:type-keyword", file=path)
+            if kw not in ("class", "interface"):
+                continue
+            own, realised = cs_expected_members(cd, c)
+            have_m = collections.Counter((m["name"], len(m["params"])) for m in r["members"])
+            want_m = collections.Counter(own)
+            for (nm, n, _owner), k in realised.items():
+                want_m[(nm, n)] += k
+            for key in sorted(set(have_m) | set(want_m)):
+                h, w = have_m.get(key, 0), want_m.get(key, 0)
+                if h == w:
+                    continue
+                if h < w:
+                    fail("%s: operation %s/%d is emitted %d time(s), expected %d" % (c.NAME, key[0], key[1], h, w), "uml_cs:%s:%s:%s" % (label, c.NAME, key[0]),
+                         finding_class="uml_cs:operation-missing" if (key in own or not any(k2[:2] == key for k2 in realised)) else "uml:realised-operation-not-overridden",
+                         file=path)
+                else:
+                    fail("%s: operation %s/%d is emitted %d time(s), expected %d" % (c.NAME, key[0], key[1], h, w), "uml_cs:%s:%s:%s" % (label, c.NAME, key[0]),
+                         finding_class="uml_cs:operation-unexpected", file=path)
+            # the same method (name and parameter types as written) twice in one type: C# rejects it
+            written = collections.Counter((m["name"], tuple(" ".join(x.split()[:-1]) for x in m["params"])) for m in r["members"])
+            once = D is not None and ctx.km.call("uml_once_hyp", "cs", D, c.ID) == b"1"
+            ctx.count("once_hyp_cs=%s" % once)
+            for key, k in sorted(written.items()):
+                if k > 1 and once:
+                    fail("%s: once_hyp holds (C19_unique_cs) but method %s(%s) is emitted %d times" % (c.NAME, key[0], ", ".join(key[1]), k),
+                         "uml_cs:%s:%s:%s:once" % (label, c.NAME, key[0]), finding_class="uml:twice-under-once-hyp", file=path)
+                elif k > 1:
+                    fail("%s: method %s(%s) is emitted %d times" % (c.NAME, key[0], ", ".join(key[1]), k), "uml_cs:%s:%s:%s" % (label, c.NAME, key[0]),
+                         finding_class="uml:operation-emitted-twice", file=path)
+            for m in r["members"]:
+                is_realised = (m["name"], len(m["params"])) not in own or "override" in m["mods"]
+                body_wanted = (kw == "class") or is_realised
+                if m["body"] != body_wanted or m["semi"] == body_wanted:
+                    fail("%s: %s %s a body" % (c.NAME, m["line"], "lacks" if body_wanted else "has"), "uml_cs:%s:%s:%s:body" % (label, c.NAME, m["name"]),
+                         finding_class="uml_cs:body", file=path)
+                if "virtual" in m["mods"] and is_realised:
+                    fail("%s: realised operation still marked virtual: %s" % (c.NAME, m["line"]), "uml_cs:%s:%s:%s:virtual" % (label, c.NAME, m["name"]),
+                         finding_class="uml_cs:realised-virtual", file=path)
     return fails
 
 
@@ -350,12 +521,18 @@ def adaptor_ties(ctx):
             ctx.tie_broken("correspondence LanguageCPP rendering helpers vs UmlBlob.type_and_name / default_format / container_type",
                            {"type": ty, "modifier": mod, "multiplicity": mu, "name": nm, "default": df, "real": real, "model": model})
         ctx.count("adaptor_rendering_cases")
+        real_cs = LanguageCsharp.LanguageCsharp().GetTypeAndNameFromMultiplicityAndModifier(anycls, ty, mod, mu, nm)
+        if [x.encode() for x in real_cs] != km.call("ub_type_and_name_cs", ty, mod, mu, nm):
+            ctx.tie_broken("correspondence LanguageCsharp.GetTypeAndNameFromMultiplicityAndModifier vs UmlBlob.type_and_name_cs",
+                           {"type": ty, "modifier": mod, "multiplicity": mu, "name": nm, "real": real_cs})
     for name in (b"TestClassDiagram", b"ProtocolStack"):
         real, cd, err = ub.real_load(vs.BLOB_XML, name)
         if real != km.call("ub_load", vs.db_v(db), name):
             ctx.tie_broken("correspondence vppclassdiagram.ExtractClassDiagram vs UmlBlob.load_cdiagram on the shipped project", {"diagram": name, "error": err})
         elif cd is not None and km.call("ub_adaptor", vs.db_v(db), name) != [ub.abstract_view(cd)]:
             ctx.tie_broken("UmlBlob.adaptor differs from the abstract diagram the harness computes from kojen's objects", {"diagram": name})
+        elif cd is not None and km.call("ub_adaptor_cs", vs.db_v(db), name) != [ub.abstract_view_cs(cd)]:
+            ctx.tie_broken("UmlBlob.adaptor_cs differs from the abstract diagram the harness computes from kojen's objects with LanguageCsharp", {"diagram": name})
         ctx.case(("adaptor-shipped", name))
     # malformed projects: a synthesised project with damaged blobs; exceptions must agree too
     for i in range(ctx.budget(40, 600)):
@@ -444,6 +621,11 @@ def semantic_ties(ctx):
         try:
             if i >= 2:
                 us.mutate(rng, cd, rng.randint(1, 3))
+            if i % 3 == 2:
+                # member names with the characters the reader used to delete (K-C19-7 repaired): inside the domain now
+                ops = [o for c in cd.classes.values() for o in c.OPERATIONS]
+                if ops:
+                    rng.choice(ops).NAME = rng.choice(["operator<", "operator()", "operator==", "Get:Set", "f, g", "a = b"])
             S, name = ub.semantic_value(rng, cd)
         except ub.Unencodable as e:
             ctx.count("semantic_unencodable:" + str(e).split(" ")[0])
@@ -502,28 +684,58 @@ def shipped_semantic_tie(ctx):
         ctx.count("shipped_semantic_in_domain")
 
 
+SEPARATOR_NAMES = [b"operator<", b"operator()", b"operator==", b"operator=", b"a:b", b"f, g"]
+
+
 def separator_probe(ctx):
-    """outside the domain of the adaptor theorem (C19_adaptor_name_refuted): an operation called operator< in a project file"""
+    """K-C19-7 (repaired): the NAME of an operation in a project file is read as it is written between its quotes -- operator<,
+    operator(), operator==, a name with a colon or a comma (C19_adaptor_operator_names); returns the failures"""
+    fails = []
+    for wanted in SEPARATOR_NAMES:
+        cd = us.load("TestClassDiagram")
+        target = next(c for c in cd.classes.values() if c.OPERATIONS and not c.PURE_VIRTUAL_INTERFACE)
+        target.OPERATIONS[0].NAME = "operatorLT"
+        try:
+            db, name = ub.project_rows(random.Random(7), cd)
+        except ub.Unencodable:
+            return fails
+        ms = [m[:4] + (m[4].replace(b'"operatorLT"', b'"' + wanted + b'"'),) for m in db[2]]
+        with kj.scratch("kjv-umlsep-") as d:
+            path = ub.project_path(d)
+            vs.write_project(path, (db[0], db[1], ms))
+            real, cd2, err = ub.real_load(path, name)
+        if ctx.km is not None and real != ctx.km.call("ub_load", vs.db_v((db[0], db[1], ms)), name):
+            ctx.tie_broken("correspondence ExtractClassDiagram vs UmlBlob.load_cdiagram (operation called %s)" % wanted.decode(), {"error": err})
+        names = [o.NAME for c in (cd2.classes.values() if cd2 else []) for o in c.OPERATIONS]
+        ctx.case(("adaptor-separator-probe", wanted))
+        if wanted.decode() not in names:
+            fails.append("an operation drawn as %s is read from the project file as %r (%s)" % (
+                wanted.decode(), [n for n in names if n.startswith(wanted.decode()[:1])][:2], err))
+    return fails
+
+
+def value_probe(ctx):
+    """what remains of the deletions of mass_replace (known finding K-C19-10): a default VALUE drawn as f(1) is read as f1"""
     cd = us.load("TestClassDiagram")
-    target = next(c for c in cd.classes.values() if c.OPERATIONS and not c.PURE_VIRTUAL_INTERFACE)
-    target.OPERATIONS[0].NAME = "operatorLT"
+    target = next(c for c in cd.classes.values() if any(o.PARAMETERS for o in c.OPERATIONS) and not c.PURE_VIRTUAL_INTERFACE)
+    op = next(o for o in target.OPERATIONS if o.PARAMETERS)
+    op.PARAMETERS[0]["defaultvalue"] = "DEFAULTHERE"
     try:
-        db, name = ub.project_rows(random.Random(7), cd)
+        db, name = ub.project_rows(random.Random(13), cd)
     except ub.Unencodable:
-        return
-    ms = [m[:4] + (m[4].replace(b'"operatorLT"', b'"operator<"'),) for m in db[2]]
-    with kj.scratch("kjv-umlsep-") as d:
+        return []
+    if not any(b'"DEFAULTHERE"' in m[4] for m in db[2]):
+        return []
+    ms = [m[:4] + (m[4].replace(b'"DEFAULTHERE"', b'"f(1)"'),) for m in db[2]]
+    with kj.scratch("kjv-umlval-") as d:
         path = ub.project_path(d)
         vs.write_project(path, (db[0], db[1], ms))
         real, cd2, err = ub.real_load(path, name)
     if ctx.km is not None and real != ctx.km.call("ub_load", vs.db_v((db[0], db[1], ms)), name):
-        ctx.tie_broken("correspondence ExtractClassDiagram vs UmlBlob.load_cdiagram (operation called operator<)", {"error": err})
-    names = [o.NAME for c in (cd2.classes.values() if cd2 else []) for o in c.OPERATIONS]
-    ctx.case(("adaptor-separator-probe",))
-    if "operator<" not in names:
-        ctx.violation("an operation drawn as operator< is read from the project file as %r" % [n for n in names if n.startswith("operator")][:1],
-                      {"finding_key": "uml-adaptor:name-with-separator", "finding_class": "uml-adaptor:name-with-separator", "label": "TestClassDiagram",
-                       "mut_seed": 0, "nedits": 0, "separator_probe": True})
+        ctx.tie_broken("correspondence ExtractClassDiagram vs UmlBlob.load_cdiagram (default value f(1))", {"error": err})
+    ctx.case(("adaptor-value-probe",))
+    vals = [p["defaultvalue"] for c in (cd2.classes.values() if cd2 else []) for o in c.OPERATIONS for p in o.PARAMETERS if p["defaultvalue"].startswith("f")]
+    return [] if "f(1)" in vals else ["a default value drawn as f(1) is read from the project file as %r" % vals[:1]]
 
 
 INJECTIONS = [b'note; abstract=T', b'note; stereotypes=<IF0000000000000>', b'css a { color: red } b {x:y:Operation}', b'a }; abstract=T; {']
@@ -595,6 +807,8 @@ def adaptor_case(ctx, stack, cd, seed, meta=None):
                       dict(info, finding_key="uml-adaptor:roundtrip", finding_class="uml-adaptor"))
     if ctx.km is not None and ctx.km.call("ub_adaptor", vs.db_v(db), name) != [ub.abstract_view(cd2)]:
         ctx.tie_broken("UmlBlob.adaptor differs from the abstract diagram of the objects read back", info)
+    if ctx.km is not None and ctx.km.call("ub_adaptor_cs", vs.db_v(db), name) != [ub.abstract_view_cs(cd2)]:
+        ctx.tie_broken("UmlBlob.adaptor_cs differs from the abstract diagram (LanguageCsharp) of the objects read back", info)
     ctx.count("adaptor_synthesised_projects")
     return path, name, cd2
 
@@ -611,7 +825,7 @@ def directed_probes(ctx):
         if ctx.km is not None:
             function_level(ctx, cd, label)
         fails, nontrivial = observe(ctx, cd, label, nsf, "", ["probe:" + probe], compile_all=not ctx.quick, touch=touch)
-        if probe.startswith(("explicit-ctor", "overloads")):
+        if probe.startswith(("explicit-ctor", "overloads", "virtual-word", "empty-interface", "redeclare")):
             fails += csharp(ctx, cd, label, nsf, ["probe:" + probe])
         ctx.case(("uml-probe", probe, nsf), nontrivial=nontrivial)
         ctx.count("directed_probe:" + probe.split(":")[0])
@@ -688,7 +902,14 @@ def run(ctx):
         printer_tie(ctx)
         semantic_ties(ctx)
         shipped_semantic_tie(ctx)
-    separator_probe(ctx)
+    for detail in separator_probe(ctx):
+        ctx.violation(detail, {"finding_key": "uml-adaptor:name-with-separator", "finding_class": "uml-adaptor:name-with-separator", "label": "TestClassDiagram",
+                               "mut_seed": 0, "nedits": 0, "separator_probe": True})
+        break
+    for detail in value_probe(ctx):
+        ctx.violation(detail, {"finding_key": "uml-adaptor:value-with-separator", "finding_class": "uml-adaptor:value-with-separator", "label": "TestClassDiagram",
+                               "mut_seed": 0, "nedits": 0, "value_probe": True})
+        break
     for detail in injection_probe(ctx):
         ctx.violation(detail, {"finding_key": "uml-adaptor:free-text-injection", "finding_class": "uml-adaptor:free-text-injection", "label": "TestClassDiagram",
                                "mut_seed": 0, "nedits": 0, "injection_probe": True})
@@ -746,9 +967,9 @@ def replay(ctx, data):
     if data.get("injection_probe"):
         return not injection_probe(ctx)
     if data.get("separator_probe"):
-        before = len(ctx.violations) + len(ctx.known)
-        separator_probe(ctx)
-        return len(ctx.violations) + len(ctx.known) == before
+        return not separator_probe(ctx)
+    if data.get("value_probe"):
+        return not value_probe(ctx)
     cd, edits = build(data["label"], data["mut_seed"], data["nedits"])
     if data["mut_seed"] == -1:
         us.add_cycle(cd)
